@@ -35,21 +35,30 @@ def skipLines (cfg : Cfg) : Nat → Bytes → Bytes
     else if r.head? = some 13 ∧ r.tail.head? = some 10 then skipLines cfg n r.tail.tail
     else r
 
-/-- one row: `none` = "request more data", else (advance, fields, `$0`) -/
-def scanRow (cfg : Cfg) (noBOM : Bool) (data : Bytes) (atEOF : Bool) : Option (Nat × List Bytes × Bytes) :=
-  let skipB := if !noBOM && bom.isPrefixOf data then 3 else 0
-  let d0 := data.drop skipB
-  if atEOF && d0.isEmpty then none else
-  let (d, cr) := if atEOF then dropFinalCR d0 else (d0, false)
+/-- one row of data `d` that no longer starts with a BOM and has lost the final `\r` that `readLine` drops before EOF
+(`cr` says whether there was one): `none` = "request more data", else (advance, fields, `$0`).
+A record that runs into the end of the data (only accepted at EOF) consumes all of it. -/
+def rowCore (cfg : Cfg) (d : Bytes) (cr atEOF : Bool) : Option (Nat × List Bytes × Bytes) :=
   let r := skipLines cfg (d.length + 1) d
   if r.isEmpty then none else
   match fieldsFuel cfg.sep (r.length + 1) r with
   | (fs, r', endedEOF, hasCR) =>
     if endedEOF && !atEOF then none else
-    let consumed := r.length - r'.length
-    let skip := skipB + (d.length - r.length)
-    let advance := skip + consumed + (if endedEOF && cr then 1 else 0)
+    let consumed := if endedEOF then r.length else r.length - r'.length
+    let advance := (d.length - r.length) + consumed + (if endedEOF && cr then 1 else 0)
     some (advance, fs, recordText (r.take consumed) endedEOF cr hasCR)
+
+def rowAt (cfg : Cfg) (d0 : Bytes) (atEOF : Bool) : Option (Nat × List Bytes × Bytes) :=
+  if atEOF then
+    if d0.isEmpty then none else rowCore cfg (dropFinalCR d0).1 (dropFinalCR d0).2 true
+  else rowCore cfg d0 false false
+
+/-- one row, with the BOM test of the first call (`noBOMCheck` unset) -/
+def scanRow (cfg : Cfg) (noBOM : Bool) (data : Bytes) (atEOF : Bool) : Option (Nat × List Bytes × Bytes) :=
+  let skipB := if !noBOM && bom.isPrefixOf data then 3 else 0
+  match rowAt cfg (data.drop skipB) atEOF with
+  | none => none
+  | some (a, fs, t) => some (skipB + a, fs, t)
 
 /-- one call of `csvSplitter.scan`. After the header row the code goes on, in the same call, with the first data row of
 `origData[advance:]` (so that a nil token is not returned when a data row is already there: at EOF `bufio.Scanner` would stop). -/
@@ -68,16 +77,19 @@ structure Out where
   recs : List (List Bytes × Bytes) := []
 deriving Repr, DecidableEq
 
-/-- `bufio.Scanner.Scan` in a loop. `eofWith`: the reader returns its last chunk together with `io.EOF`. -/
+/-- one `Read`: the next chunk is appended to the buffer; no chunk left = EOF. `eofWith`: the reader returns its last
+chunk together with `io.EOF`. Result: (buffer, remaining chunks, EOF known). -/
+def readNext (eofWith : Bool) (buf : Bytes) (chunks : List Bytes) : Bytes × List Bytes × Bool :=
+  match chunks with
+  | [] => (buf, [], true)
+  | [c] => (buf ++ c, [], eofWith)
+  | c :: cs => (buf ++ c, cs, false)
+
+/-- `bufio.Scanner.Scan` in a loop: call the split function when the buffer is non-empty or EOF is known; deliver a token
+and go on; on a nil token stop if EOF is known, else read more. -/
 def run (cfg : Cfg) (eofWith : Bool) : Nat → St → Bytes → List Bytes → Bool → Out → Out
   | 0, _, _, _, _, out => out
   | fuel + 1, st, buf, chunks, eof, out =>
-    let read (st : St) (buf : Bytes) (out : Out) : Out :=
-      if eof then out else
-      match chunks with
-      | [] => run cfg eofWith fuel st buf [] true out
-      | [c] => run cfg eofWith fuel st (buf ++ c) [] eofWith out
-      | c :: cs => run cfg eofWith fuel st (buf ++ c) cs false out
     if !buf.isEmpty || eof then
       match csvScan cfg st buf eof with
       | .record n names fs t =>
@@ -86,9 +98,18 @@ def run (cfg : Cfg) (eofWith : Bool) : Nat → St → Bytes → List Bytes → B
             { names := if names.isSome then names else out.names, recs := out.recs ++ [(fs, t)] }
         else out
       | .skip n fs =>
-        if n ≤ buf.length then read { noBOM := true, row0 := false } (buf.drop n) { out with names := some fs } else out
-      | .more => read st buf out
-    else read st buf out
+        if n ≤ buf.length then
+          if eof then { out with names := some fs } else
+          let nx := readNext eofWith (buf.drop n) chunks
+          run cfg eofWith fuel { noBOM := true, row0 := false } nx.1 nx.2.1 nx.2.2 { out with names := some fs }
+        else out
+      | .more =>
+        if eof then out else
+        let nx := readNext eofWith buf chunks
+        run cfg eofWith fuel st nx.1 nx.2.1 nx.2.2 out
+    else
+      let nx := readNext eofWith buf chunks
+      run cfg eofWith fuel st nx.1 nx.2.1 nx.2.2 out
 
 def totalLen (chunks : List Bytes) : Nat := (chunks.map List.length).sum
 
